@@ -687,7 +687,7 @@ func (m *mon) checkList(idx int, via string, list [][]byte, light bool) {
 		for d := 1; d <= 10; d++ {
 			add(len(enc) - d)
 		}
-		nc := r.N(60, 2000)
+		nc := r.N(60, 1000)
 		for len(cuts) < nc && len(cuts) < len(enc) {
 			add(rng.Intn(len(enc)))
 		}
@@ -816,7 +816,7 @@ func TestC29(t *testing.T) {
 	add("directed-one", [][]byte{[]byte("a")}, false)
 	add("directed-prefix-like-items", [][]byte{{0, 0, 0, 0, 0, 0, 0, 1}, {0xff, 0xff, 0xff, 0xff, 0xff, 0xff, 0xff, 0xff}, {0, 0, 0, 0, 0, 0, 0, 0}}, false)
 
-	n0, n1, n2, n3 := r.N(120, 1500), r.N(80, 800), r.N(12, 150), r.N(8, 60)
+	n0, n1, n2, n3 := r.N(120, 1500), r.N(80, 800), r.N(12, 100), r.N(8, 40)
 	for i := 0; i < n0+n1+n2+n3; i++ {
 		kind := 0
 		switch {
